@@ -41,6 +41,9 @@ pub fn to_spec(p: &Placement, hash_seed: u64) -> RunSpec {
             "repo" => repo_skeleton(&mut spec, e.gitconfig.clone()),
             "split" => {
                 let mut custom = String::new();
+                if p.git_colors {
+                    custom.push_str(GIT_COLORS_TEXT);
+                }
                 for (n, s) in &p.custom {
                     custom.push_str(&section_text(Some(n), &p.probe, s));
                 }
@@ -136,20 +139,37 @@ fn calibrate_builtins(env: &Env, ctx: &Ctx, defaults: &BTreeMap<String, String>)
     let mut t = BuiltinTable::new();
     for probe in PROBES {
         for b in BUILTINS {
-            let mut p = Placement::default();
-            p.probe = probe.name.to_string();
-            p.no_gitconfig = true;
-            p.cli_features = Some(vec![b.to_string()]);
-            if let Some(o) = observe(env, ctx, &p, 1) {
-                if let Some(v) = o.shown {
-                    if Some(&v) != defaults.get(probe.name) {
-                        t.insert((probe.name.to_string(), b.to_string()), v);
+            // what a builtin feature sets is data: read it from the binary.  A lower-priority custom
+            // feature sets the option to a marker value; if the marker shows, the builtin does not set
+            // the option at all (a builtin may also set an option to what happens to be its default);
+            // two markers, because a builtin may set the option to the marker's own value
+            let (m1, m2) = calibration_markers(probe);
+            for colors in [false, true] {
+                if colors && !reads_git_colors(probe.name) {
+                    continue;
+                }
+                let mut shown: Vec<Option<String>> = Vec::new();
+                for m in [&m1, &m2] {
+                    let mut p = Placement::default();
+                    p.probe = probe.name.to_string();
+                    p.custom.insert("fz".into(), Section { value: Some(m.clone()), ..Default::default() });
+                    p.cli_features = Some(vec!["fz".to_string(), b.to_string()]);
+                    p.git_colors = colors;
+                    shown.push(observe(env, ctx, &p, 1).and_then(|o| o.shown));
+                }
+                let quoted = |m: &str, v: &str| v == m || v == format!("'{}'", m);
+                if let (Some(v1), Some(v2)) = (&shown[0], &shown[1]) {
+                    if !(quoted(&m1, v1) && quoted(&m2, v2)) {
+                        t.insert((probe.name.to_string(), if colors { format!("{}+git-colors", b) } else { b.to_string() }), v1.clone());
                     }
                 }
             }
         }
         // cross-check with the transcribed table (a note, never a verdict)
         for (b, v) in probe.builtin {
+            if v.is_empty() {
+                continue;
+            }
             if t.get(&(probe.name.to_string(), b.to_string())).map(|x| x.as_str()) != Some(*v) {
                 eprintln!("NOTE: builtin feature {} gives {} = {:?} on this tree (transcribed from the sources: {:?})", b, probe.name, t.get(&(probe.name.to_string(), b.to_string())), v);
             }
